@@ -166,3 +166,19 @@ def record_states(cfg_builder, max_states=400):
         step = len(rec) / max_states
         rec = [rec[int(i * step)] for i in range(max_states)]
     return obj, rec
+
+
+@contextlib.contextmanager
+def nan_blanks():
+    """make MassBins.blanks('empty') return NaN-filled buffers, so rows the loop never writes are visible"""
+    orig = MassBins.blanks
+
+    def patched(self, value=0., extra_dims=None, *, packed=True, **kwargs):
+        if isinstance(value, str) and value == 'empty' and extra_dims is not None:
+            return orig(self, float('nan'), extra_dims, packed=packed, **kwargs)
+        return orig(self, value, extra_dims, packed=packed, **kwargs)
+    MassBins.blanks = patched
+    try:
+        yield
+    finally:
+        MassBins.blanks = orig
